@@ -61,11 +61,12 @@ Example dup_doc_text :
   = Some (dup_doc, O, []).
 Proof. vm_compute. reflexivity. Qed.
 
-Lemma w_net_names F ports insts ident name port nt : denote_net F ports insts (w_net ident name port) nt ->
+Lemma w_net_names F ports insts ident name port nt : unescape_value (s2l name) = Ok (s2l name) ->
+  denote_net F ports insts (w_net ident name port) nt ->
   n_ident nt = s2l ident /\ n_name nt = s2l name.
 Proof.
-  intros (nd & j & jargs & rest & o & E & _ & D & N & _). unfold w_net in E. inversion E; subst. clear E.
-  inversion D; subst. rewrite N. cbn [display]. auto.
+  intros U (nd & j & jargs & rest & o & E & _ & D & N & _). unfold w_net in E. inversion E; subst. clear E.
+  inversion D as [|k a s v Hk U']; subst. rewrite U in U'. inversion U'; subst. rewrite N. cbn [display]. auto.
 Qed.
 
 Lemma dup_not_denoted : ~ denote_file dup_doc dup_res.
@@ -77,7 +78,8 @@ Proof.
   rewrite Hs in Hn.
   inversion Hn as [|? n1 ? ? H1 Hn1]; subst. inversion Hn1 as [|? n2 ? ? H2 Hn2]; subst.
   inversion Hn2 as [|? n3 ? ? H3 Hn3]; subst. inversion Hn3; subst. clear Hn Hn1 Hn2 Hn3 Hs.
-  apply w_net_names in H1 as [I1 N1]. apply w_net_names in H2 as [I2 N2]. apply w_net_names in H3 as [I3 N3].
+  apply w_net_names in H1 as [I1 N1]; [|vm_compute; reflexivity]. apply w_net_names in H2 as [I2 N2]; [|vm_compute; reflexivity].
+  apply w_net_names in H3 as [I3 N3]; [|vm_compute; reflexivity].
   destruct n1 as [[i1 m1] p1], n2 as [[i2 m2] p2], n3 as [[i3 m3] p3].
   unfold n_ident, n_name in *. cbn [fst snd] in *. subst.
   destruct Hconn as [_ He].
